@@ -359,8 +359,12 @@ def install_known(ctx):
     orig = ctx._match_known
     mine = load_findings()
 
+    fixed_ids = {e.get("id") for e in mine if e.get("status") == "fixed"}
+
     def match(signature):
         r = orig(signature)
+        if r is not None and r.get("id") in fixed_ids:
+            r = None  # stale entry of known_findings.json: this property's findings.json says it is fixed
         if r is not None:
             return r
         for e in mine:
@@ -469,7 +473,7 @@ def run(ctx):
         tags = [[] for _ in ops]
     else:
         corpus = [l.strip() for l in open(os.path.join(HERE, "corpus.ops")) if l.strip() and not l.startswith("#")]
-        for f in load_findings():
+        for f in load_findings():  # known ones are re-derived, fixed ones guard against regression
             corpus += f.get("replay", {}).get("ops", [])
         n = ctx.scale(4000, 150000)
         cases = [gen_case(ctx.rng) for _ in range(n)]
@@ -528,7 +532,7 @@ def run(ctx):
         else:
             mm, ss = m[2:].split(" S ")
             ss, qq = ss.split(" Q ")
-            # the specification with the three documented relaxations must describe the model exactly
+            # the specification with the documented relaxation(s) of Quirks.go must describe the model exactly
             if parse_out(qq)[0] != [e if e not in ("eofraw", "internal") else e for e in parse_out(mm)[0]]:
                 ctx.violation("correspondence", "Lean model and relaxed specification differ: `%s` vs `%s`" % (mm, qq),
                               signature={"kind": "model-vs-quirk-spec"}, replay={"ops": [op], "model": [m]},
